@@ -5,6 +5,7 @@ import (
 	"context"
 	"encoding/base64"
 	"fmt"
+	"io"
 	stdhttp "net/http"
 	"net/url"
 	"sort"
@@ -251,6 +252,7 @@ func c17AnnoList(srcs []hmSrc) []string {
 }
 
 func runC17(c *h.Ctx) {
+	defer c17RespOptions(c)
 	c.Run("request", c.N(6000, 200000), func(cs *h.Case) {
 		types := c17Types()
 		kinds := []string{"query", "path", "header", "cookie", "form", "body"}
@@ -1011,6 +1013,239 @@ func runC17(c *h.Ctx) {
 		}
 		cs.Cover("response_ok")
 		cs.Distinct(fmt.Sprintf("rs-%d-%d-%v-%d", ob, len(root), metaPresent, len(delivered)))
+	})
+}
+
+// c17RespOptions: response fields listing several annotations, some of which cannot deliver on the response side
+// (api.query/path/form/body are request-only), under OmitHttpMappingErrors x WriteHttpValueFallback x
+// UseKitexHttpEncoding.  The annotations are tried from left to right; a failing one is an error unless
+// OmitHttpMappingErrors is set; the first that delivers wins and the field is left out of the JSON body; a field
+// none of whose annotations delivered goes to the body only under WriteHttpValueFallback.
+func c17RespOptions(c *h.Ctx) {
+	c.Run("response-options", c.N(2500, 80000), func(cs *h.Case) {
+		types := []*gen.Type{{T: tref.STRING}, {T: tref.I32}, {T: tref.I64}, {T: tref.BOOL}, {T: tref.STRING}, {T: tref.I16},
+			{T: tref.LIST, Elem: &gen.Type{T: tref.STRING}}, {T: tref.LIST, Elem: &gen.Type{T: tref.I64}}}
+		rootS := &gen.StructT{Name: "Resp"}
+		var fs []hmField
+		used := map[int16]bool{}
+		status, rawBody := false, false
+		for i := 0; i < 2+cs.R.Intn(6); i++ {
+			id := int16(1 + cs.R.Intn(40))
+			for used[id] {
+				id = int16(1 + cs.R.Intn(40))
+			}
+			used[id] = true
+			t := types[cs.R.Intn(len(types))]
+			f := &gen.FieldT{ID: id, Name: fmt.Sprintf("R%d", i), T: t, Req: cs.R.Intn(3)}
+			hf := hmField{f: f}
+			seen := map[string]bool{}
+			for k := []int{0, 1, 1, 2, 2, 3}[cs.R.Intn(6)]; k > 0; k-- {
+				kind := []string{"query", "path", "form", "body", "header", "header", "cookie", "http_code", "raw_body"}[cs.R.Intn(9)]
+				switch {
+				case kind == "cookie" && t.T == tref.LIST:
+					kind = "header"
+				case kind == "http_code" && (status || t.T != tref.I32):
+					kind = "header"
+				case kind == "raw_body" && (rawBody || t.T != tref.STRING):
+					kind = "header"
+				}
+				if seen[kind] {
+					continue
+				}
+				seen[kind] = true
+				key := fmt.Sprintf("%s%d", kind[:1], i)
+				switch kind {
+				case "header":
+					key = fmt.Sprintf("X-R%d", i)
+				case "http_code":
+					key, status = "status", true
+				case "raw_body":
+					key, rawBody = "", true
+				}
+				hf.srcs = append(hf.srcs, hmSrc{kind, key})
+			}
+			f.Annos = c17AnnoList(hf.srcs)
+			rootS.Fields = append(rootS.Fields, f)
+			fs = append(fs, hf)
+		}
+		sc := &gen.Schema{Structs: []*gen.StructT{rootS}, Root: rootS}
+		cs.Info("idl", sc.IDL())
+		desc, _, err := ParseRoot(sc, thrift.NewDefaultOptions())
+		if err != nil {
+			cs.Viol("hm:parse-idl", "err", err)
+			return
+		}
+		ob := cs.R.Intn(8)
+		o := conv.Options{EnableHttpMapping: true, OmitHttpMappingErrors: ob&1 != 0, WriteHttpValueFallback: ob&2 != 0, UseKitexHttpEncoding: ob&4 != 0}
+		cs.Info("opts", fmt.Sprintf("omit-errors=%v write-fallback=%v kitex=%v", o.OmitHttpMappingErrors, o.WriteHttpValueFallback, o.UseKitexHttpEncoding))
+		delivers := func(kind string) bool {
+			return kind == "header" || kind == "cookie" || kind == "http_code" || kind == "raw_body"
+		}
+		type exp struct {
+			hf   hmField
+			v    *tref.Val
+			sink *hmSrc // nil: no annotation delivered
+		}
+		var exps []exp
+		msg := tref.Struct()
+		wantErr := false
+		for _, hf := range fs {
+			if hf.f.Req != gen.ReqRequired && !cs.R.Chance(80) {
+				continue
+			}
+			var x *tref.Val
+			switch {
+			case hf.f.T.T == tref.I32 && len(hf.srcs) > 0:
+				x = tref.Int32(int32([]int{200, 201, 404, 500, 302}[cs.R.Intn(5)]))
+			default:
+				x = c17Val(cs.R, hf.f.T, "header", false)
+			}
+			msg.Fs = append(msg.Fs, tref.Field{ID: hf.f.ID, V: x})
+			e := exp{hf: hf, v: x}
+			for i := range hf.srcs {
+				if delivers(hf.srcs[i].kind) {
+					e.sink = &hf.srcs[i]
+					break
+				}
+				if !o.OmitHttpMappingErrors {
+					wantErr = true
+					break
+				}
+			}
+			exps = append(exps, e)
+		}
+		b := tref.Encode(msg)
+		cs.Info("message", msg.String())
+		resp := dhttp.NewHTTPResponse()
+		ctx := context.WithValue(context.Background(), conv.CtxKeyHTTPResponse, resp)
+		cv := t2j.NewBinaryConv(o)
+		out, err := cv.Do(ctx, desc, b)
+		if wantErr {
+			if err == nil {
+				cs.Viol("hm:respopt:failing-annotation-accepted", "out", string(out))
+			} else {
+				cs.Cover("respopt_failing_annotation_rejected")
+			}
+			return
+		}
+		if err != nil {
+			cs.Viol("hm:respopt:error-on-domain", "err", err)
+			return
+		}
+		j, perr := ParseJSON(out)
+		if perr != nil || j.K != 'o' {
+			cs.Viol("hm:resp:malformed-json", "out", string(out))
+			return
+		}
+		find := func(k string) *JV {
+			for i, kk := range j.Keys {
+				if kk == k {
+					return j.Vals[i]
+				}
+			}
+			return nil
+		}
+		// text of a value as a response sink carries it
+		var textOf func(v *tref.Val) string
+		textOf = func(v *tref.Val) string {
+			switch v.T {
+			case tref.STRING:
+				return string(v.S)
+			case tref.BOOL:
+				return strconv.FormatBool(v.B)
+			case tref.LIST:
+				var ps []string
+				for _, e := range v.L {
+					if o.UseKitexHttpEncoding {
+						ps = append(ps, textOf(e))
+					} else if e.T == tref.STRING {
+						ps = append(ps, jsonQuote(string(e.S)))
+					} else {
+						ps = append(ps, textOf(e))
+					}
+				}
+				if o.UseKitexHttpEncoding {
+					return strings.Join(ps, ",")
+				}
+				return "[" + strings.Join(ps, ",") + "]"
+			}
+			return strconv.FormatInt(v.I, 10)
+		}
+		inBody := func(e exp) bool {
+			jv := find(e.hf.f.Name)
+			if jv == nil {
+				return false
+			}
+			return true
+		}
+		cookies := map[string][]string{}
+		for _, ck := range (&stdhttp.Response{Header: resp.Header}).Cookies() {
+			cookies[ck.Name] = append(cookies[ck.Name], ck.Value)
+		}
+		for _, e := range exps {
+			cls := "plain"
+			if len(e.hf.srcs) > 0 {
+				cls = ""
+				for _, s := range e.hf.srcs {
+					cls += s.kind + ","
+				}
+				cls = strings.TrimSuffix(cls, ",")
+			}
+			switch {
+			case len(e.hf.srcs) == 0:
+				if !inBody(e) {
+					cs.Viol("hm:respopt:plain-field-missing", "field", e.hf.f.Name, "out", string(out))
+					return
+				}
+			case e.sink == nil:
+				if inBody(e) != o.WriteHttpValueFallback {
+					cs.Viol("hm:respopt:undelivered-field-body:"+cls, "field", e.hf.f.Name, "in-body", inBody(e), "write-fallback", o.WriteHttpValueFallback, "out", string(out))
+					return
+				}
+				if o.WriteHttpValueFallback {
+					cs.Cover("respopt_undelivered_field_written_to_body")
+				} else {
+					cs.Cover("respopt_undelivered_field_dropped")
+				}
+			default:
+				if inBody(e) {
+					cs.Viol("hm:respopt:delivered-field-also-in-body:"+cls, "field", e.hf.f.Name, "out", string(out))
+					return
+				}
+				want := textOf(e.v)
+				var got []string
+				switch e.sink.kind {
+				case "header":
+					got = resp.Header.Values(e.sink.key)
+				case "cookie":
+					got = cookies[e.sink.key]
+				case "http_code":
+					got, want = []string{strconv.Itoa(resp.StatusCode)}, strconv.FormatInt(e.v.I, 10)
+				case "raw_body":
+					if resp.Response.Body != nil {
+						bb, _ := io.ReadAll(resp.Response.Body)
+						got = []string{string(bb)}
+					}
+				}
+				if len(got) != 1 || got[0] != want {
+					cs.Viol("hm:respopt:sink-value:"+cls+":"+tref.TypeName(e.hf.f.T.T), "field", e.hf.f.Name, "sink", e.sink.kind, "got", fmt.Sprint(got), "want", want)
+					return
+				}
+				cs.Cover("respopt_" + e.sink.kind + "_delivered")
+				if e.sink != &e.hf.srcs[0] {
+					cs.Cover("respopt_later_annotation_delivered")
+				}
+				if e.v.T == tref.LIST {
+					if o.UseKitexHttpEncoding {
+						cs.Cover("respopt_list_kitex_encoded")
+					} else {
+						cs.Cover("respopt_list_json_encoded")
+					}
+				}
+			}
+		}
+		cs.Cover("respopt_ok")
+		cs.Distinct(fmt.Sprintf("ro-%d-%d-%s", ob, len(exps), shapeKey(msg)[:min(len(shapeKey(msg)), 14)]))
 	})
 }
 
